@@ -59,6 +59,26 @@ def run_case(case):
             val, info = Limit(fw, **opts)(z if len(z) > 1 else z[0])
     except Exception as ex:
         return dict(error='%s: %s' % (type(ex).__name__, str(ex)[:160]))
+    # the same points in other guises: without full_output (values must not depend on whether the record is asked for),
+    # and as two-dimensional arrays in C order, Fortran order and as a transposed view (positions are logical, row-major)
+    alts = []
+    try:
+        with np.errstate(all='ignore'):
+            o2 = dict(opts, full_output=False)
+            alts.append(('full_output=False', np.atleast_1d(Limit(f, **o2)(z if len(z) > 1 else z[0])).tolist()))
+            if len(z) > 1:
+                z2 = np.array([z, z[::-1]])
+                for nm, zz in (('2-d C order', z2), ('2-d Fortran order', np.asfortranarray(z2)), ('2-d transposed view', np.ascontiguousarray(z2.T).T)):
+                    for fo in (True, False):
+                        r2 = Limit(f, **dict(opts, full_output=fo))(zz)
+                        r2 = r2[0] if fo else r2
+                        if np.shape(r2) != z2.shape:
+                            alts.append(('%s full_output=%s: shape %s' % (nm, fo, np.shape(r2)), None))
+                        else:
+                            alts.append(('%s full_output=%s row 0' % (nm, fo), np.asarray(r2)[0].tolist()))
+                            alts.append(('%s full_output=%s row 1 reversed' % (nm, fo), np.asarray(r2)[1][::-1].tolist()))
+    except Exception as ex:
+        alts.append(('raised %s: %s' % (type(ex).__name__, str(ex)[:120]), None))
     val = np.atleast_1d(val)
     est = np.atleast_1d(info.error_estimate)
     want, kinds = [], []
@@ -79,14 +99,14 @@ def run_case(case):
         a = np.atleast_1d(a)
         if a.size == len(sing):
             offs.append((a - np.array(sing)).tolist())
-    return dict(val=val.tolist(), est=est.tolist(), want=[complex(w) for w in want], kinds=kinds,
+    return dict(alts=alts, val=val.tolist(), est=est.tolist(), want=[complex(w) for w in want], kinds=kinds,
                 offs=[[complex(o) for o in row] for row in (offs[:6] + offs[-2:])], left_domain=bool(left[0]) or (cfg['path'] == 'spiral' and max([float(np.max(np.abs(r_))) for r_ in offs] + [0.0]) >= dict(sinc=1e300, expm1w=1e300, log1pw=1.0, wsin=3.0)[cfg['kernel']]), regular_exact=[complex(t) for t in np.atleast_1d(first[0])])
 
 
 def run_residue(case):
     vlib.use_repo()
     from numdifftools.limits import Residue
-    pi, z0, p, method, order = case
+    pi, z0, p, method, order, path = case
     pr = PROGS[pi]
     g = exprs.make_fun(pr['prog'], 1.0, z0)
     gz = exprs.jet_floats(pr['jet'])[0]
@@ -94,7 +114,7 @@ def run_residue(case):
     def f(z):
         with np.errstate(all='ignore'):
             return g(z) / (z - z0) ** p
-    kw = dict(pole_order=p, method=method, full_output=True)
+    kw = dict(pole_order=p, method=method, full_output=True, path=path)
     if order:
         kw['order'] = order
     try:
@@ -102,9 +122,10 @@ def run_residue(case):
             R = Residue(f, **kw)
             val, info = R(z0)
             arr, ainfo = Residue(f, **kw)(np.array([z0, z0]))
+            plain = Residue(f, **dict(kw, full_output=False))(z0)
     except Exception as ex:
         return dict(error='%s: %s' % (type(ex).__name__, str(ex)[:160]))
-    return dict(val=complex(val), est=float(np.max(info.error_estimate)), want=gz, order=int(R.order), arr=[complex(a) for a in np.ravel(arr)])
+    return dict(val=complex(val), est=float(np.max(info.error_estimate)), want=gz, order=int(R.order), arr=[complex(a) for a in np.ravel(arr)], plain=complex(plain))
 
 
 def run(tier, rep):
@@ -163,6 +184,15 @@ def run(tier, rep):
                     rep.violation('limit-value:%s' % cfg_['kernel'], dict(case=name, position=i, got=[v.real, v.imag], want=[w.real, w.imag], error_estimate=e),
                                   '%s: singular point #%d (%s): limit %r, exact %r, error_estimate %.3g' % (name, i, p, v, w, e))
                     break
+        for nm, av in o['alts']:
+            if av is None:
+                rep.violation('limit-variant', dict(case=name, variant=nm), '%s: %s' % (name, nm))
+                break
+            a, b = np.array(av, dtype=complex), np.array(o['val'], dtype=complex)
+            if a.shape != b.shape or not (np.abs(a - b) <= 1e-9 * np.maximum(1.0, np.abs(b))).all():
+                rep.violation('limit-variant:' + nm.split(' row')[0].split('=')[0], dict(case=name, variant=nm, got=[[t.real, t.imag] for t in a], plain=[[t.real, t.imag] for t in b]),
+                              '%s: called as %s the points give %s, the plain 1-d full_output call gives %s' % (name, nm, a.tolist(), b.tolist()))
+                break
         # sign and path of the evaluation points
         sgn = r['sign']
         if o['offs']:
@@ -180,17 +210,18 @@ def run(tier, rep):
     # Residue
     rcases = []
     for pi in range(len(PROGS)):
-        for z0 in (0.0, 1.5, -2.0, 0.5 + 0.5j):
+        for z0 in (0.0, 1.5, -2.0, 0.5 + 0.5j, 2.5, 0.7, math.pi):       # dyadic and non-dyadic: z0 + h is rounded for the latter
             for p in (1, 2, 3):
                 for method in ('above', 'below'):
                     for order in (0, p + 1, p + 3):
-                        if tier == 'quick' and rnd.random() > 0.25:
-                            continue
-                        rcases.append((pi, z0, p, method, order))
+                        for path in ('radial', 'spiral'):
+                            if tier == 'quick' and rnd.random() > 0.2:
+                                continue
+                            rcases.append((pi, z0, p, method, order, path))
     routs = vlib.pool_map(run_residue, rcases, chunksize=4)
     KR, FR = ENV['limit']['K_residue'], ENV['limit']['floor_residue']
-    for (pi, z0, p, method, order), o in zip(rcases, routs):
-        name = 'Residue g=%s z0=%r pole_order=%d %s order=%s' % ('.'.join(PROGS[pi]['prog']), z0, p, method, order or 'default')
+    for (pi, z0, p, method, order, path), o in zip(rcases, routs):
+        name = 'Residue g=%s z0=%r pole_order=%d %s/%s order=%s' % ('.'.join(PROGS[pi]['prog']), z0, p, method, path, order or 'default')
         if 'error' in o:
             rep.violation('raises:residue', dict(case=name), '%s raised %s' % (name, o['error']))
             continue
@@ -204,6 +235,9 @@ def run(tier, rep):
         if not err <= KR * o['est'] + floor:
             rep.violation('residue-value:p=%d:%s' % (p, method), dict(case=name, got=[o['val'].real, o['val'].imag], want=o['want'], error_estimate=o['est']),
                           '%s: residue %r, exact g(z0) = %r, error_estimate %.3g' % (name, o['val'], o['want'], o['est']))
+        elif not abs(o['plain'] - o['val']) <= 1e-9 * max(1.0, abs(o['val'])):
+            rep.violation('residue-variant:full_output', dict(case=name, got=[o['plain'].real, o['plain'].imag], with_record=[o['val'].real, o['val'].imag]),
+                          '%s: without full_output the residue is %r, with it %r' % (name, o['plain'], o['val']))
         elif max(abs(a - o['want']) for a in o['arr']) > KR * o['est'] * 10 + floor * 10:
             rep.violation('residue-array', dict(case=name, got=[[a.real, a.imag] for a in o['arr']]), '%s: array z0 gives %s' % (name, o['arr']))
     if os.environ.get('VERIF_SURVEY'):
